@@ -285,7 +285,10 @@ func vpH_c03_cache_env() {
 	step := vpMapOf("command", "c")
 	pth := vpStr(1, "x-z")
 	var wantCache any
-	switch vpInt(0, 4) {
+	switch vpInt(0, 5) {
+	case 5: // `cache: true` is an empty settings block
+		step.Set("cache", true)
+		wantCache = map[string]any{}
 	case 0:
 		step.Set("cache", false)
 		wantCache = false
@@ -303,10 +306,10 @@ func vpH_c03_cache_env() {
 		wantCache = map[string]any{"paths": []any{pth}}
 	}
 	ev := vpStrUpTo(1, "x-z")
-	step.Set("env", vpMapOf("A", ev, "B", 12, "C", true))
+	step.Set("env", vpMapOf("A", ev, "B", 12, "C", true, "D", 1e21, "E", 0.00001, "F", 2.5, "G", -7))
 	obj := vpParseOne(step, vpBool())
 	vpWantMember(obj, "cache", wantCache, "cache takes its canonical shape with all its data")
-	vpWantMember(obj, "env", map[string]any{"A": ev, "B": "12", "C": "true"}, "env scalars become strings, nothing else changes")
+	vpWantMember(obj, "env", map[string]any{"A": ev, "B": "12", "C": "true", "D": "1e+21", "E": "1e-05", "F": "2.5", "G": "-7"}, "env scalars become strings (floats in Go's shortest form), nothing else changes")
 	vpAssert(vpJLen(obj) == 3, "the step has exactly command, cache and env")
 }
 
